@@ -74,7 +74,7 @@ def make_peer(c):
         keys.append('rsa-sha2-512')
     if prof == 'gex':
         k['kex'] = k['kex'] + [GEX256]
-        gex = {'sizes': [rng.choice([2048, 3072, 4096, 8192])], 'style': 'strict'}
+        gex = {'sizes': [rng.choice([2048, 3072, 4096, 8192])], 'style': rng.choice(['strict', 'openssh'])}   # 'openssh': real OpenSSH behaviour (2048-bit fallback for requests nothing on file fits, measured through the follow-up probe)
     elif GEX256 in k['kex'] or 'diffie-hellman-group-exchange-sha1' in k['kex']:
         gex = {'sizes': [4096], 'style': 'strict'}
     if not any(x in gen.PROBE_KEX for x in k['kex']):
@@ -147,7 +147,7 @@ def perturbations(script, rng, everything):
         cur = script['gex']['sizes'][0]
         nb = 3072 if cur != 3072 else 4096
         s2 = copy.deepcopy(script)
-        s2['gex'] = {'sizes': [nb], 'style': 'strict'}
+        s2['gex'] = {'sizes': [nb], 'style': script['gex'].get('style', 'strict')}
         res.append(('modulus', 'gex modulus %d -> %d' % (cur, nb), s2))
     return res
 
